@@ -5452,7 +5452,8 @@ class Arc(Curve):
         self.start = start
         end = Point(end)
         self.end = end
-        if start == end or rx == 0 or ry == 0:
+        if start == end or rx * rx == 0 or ry * ry == 0:
+            # A radius whose square underflows to zero is a zero radius as well.
             # If start is equal to end, there are infinite number of circles so these void out.
             # We still permit this kind of arc, but SVG parameterization cannot be used to achieve it.
             self.sweep = 0
